@@ -75,7 +75,65 @@ func periodic(w uint, d uint64) *big.Int {
 var scalarClasses = []string{
 	"k-small", "k-near-n", "k-near-2^256", "k-near-n/2", "k-pow2", "k-limb-carry",
 	"k-long-runs", "k-single-window", "k-periodic-window", "k-uniform32", "k-multiple-of-n-plus-r",
-	"k-uniform-anylen", "k-fixed-edge",
+	"k-uniform-anylen", "k-fixed-edge", "k-limb-alphabet", "k-montgomery-structured",
+}
+
+// limbAlphabet holds 64-bit limb values at the 32- and 64-bit carry and sign
+// boundaries. Partial products and Montgomery reduction limbs built from them
+// land next to 2^31, 2^32, 2^63 and 2^64, where carry and flag handling of the
+// assembly differs from the generic case (this is the class of input that
+// exposed the stale overflow flag in p256Mul's ADX path).
+var limbAlphabet = []uint64{
+	0, 1, 2, 3, 0x7fffffff, 0x80000000, 0x80000001, 0xffffffff, 0x100000000, 0x100000001,
+	0x4000000000000000, 0x7fffffffffffffff, 0x8000000000000000, 0x8000000000000001, 0x800000007fffffff,
+	0x8000000080000000, 0x80000000ffffffff, 0xffffffff00000000, 0xfffffffeffffffff, 0xffffffff7fffffff,
+	0xffffffff80000000, 0xfffffffffffffffe, 0xffffffffffffffff,
+}
+
+// limbsValue assembles little-endian 64-bit limbs.
+func limbsValue(limbs []uint64) *big.Int {
+	v := new(big.Int)
+	for i := len(limbs) - 1; i >= 0; i-- {
+		v.Lsh(v, 64)
+		v.Or(v, new(big.Int).SetUint64(limbs[i]))
+	}
+	return v
+}
+
+// drawLimbs draws nl limbs from the alphabet (one of them sometimes uniform).
+func drawLimbs(t *rapid.T, label string, nl int) *big.Int {
+	limbs := make([]uint64, nl)
+	for i := range limbs {
+		limbs[i] = limbAlphabet[rapid.IntRange(0, len(limbAlphabet)-1).Draw(t, label+"Limb")]
+	}
+	if rapid.IntRange(0, 3).Draw(t, label+"LimbMix") == 0 {
+		limbs[rapid.IntRange(0, nl-1).Draw(t, label+"LimbPos")] = rapid.Uint64().Draw(t, label+"LimbRnd")
+	}
+	return limbsValue(limbs)
+}
+
+// drawStructured256 draws a 256-bit pattern: limb alphabet, 2^k (+-1), or
+// 2^a - 2^b.
+func drawStructured256(t *rapid.T, label string) *big.Int {
+	switch rapid.IntRange(0, 3).Draw(t, label+"SKind") {
+	case 0:
+		v := pw(uint(rapid.IntRange(0, 255).Draw(t, label+"SPow")))
+		return v.Add(v, big.NewInt(int64(rapid.IntRange(-1, 1).Draw(t, label+"SAdj"))))
+	case 1:
+		a := rapid.IntRange(1, 256).Draw(t, label+"SA")
+		b := rapid.IntRange(0, a-1).Draw(t, label+"SB")
+		return new(big.Int).Sub(pw(uint(a)), pw(uint(b)))
+	default:
+		return drawLimbs(t, label, 4)
+	}
+}
+
+// montStructured returns v with v*2^256 = s (mod m): a value whose Montgomery
+// form (what the assembly computes on) is the structured pattern s.
+func montStructured(s, m *big.Int) *big.Int {
+	rinv := new(big.Int).ModInverse(new(big.Int).Mod(pow256, m), m)
+	v := new(big.Int).Mul(new(big.Int).Mod(s, m), rinv)
+	return v.Mod(v, m)
 }
 
 // fixedEdge are the values the property names explicitly.
@@ -167,9 +225,13 @@ func drawScalarValue(t *rapid.T, label string) (*big.Int, string) {
 	case 11:
 		l := rapid.IntRange(0, maxScalarLen).Draw(t, label+"AnyLen")
 		v = new(big.Int).SetBytes(gen.Fill(rapid.Uint64().Draw(t, label+"AnySeed"), l))
-	default:
+	case 12:
 		fe := fixedEdge()
 		v = fe[rapid.IntRange(0, len(fe)-1).Draw(t, label+"Edge")]
+	case 13:
+		v = drawLimbs(t, label, rapid.SampledFrom([]int{4, 4, 4, 5, 3}).Draw(t, label+"NLimbs"))
+	default:
+		v = montStructured(drawStructured256(t, label), n)
 	}
 	if v.Sign() < 0 {
 		v.Neg(v)
@@ -245,6 +307,16 @@ func scalarGenSelfTest() error {
 	}
 	if b := encodeScalar(big.NewInt(0x1ff), 2, 3); len(b) != 5 || b[3] != 1 {
 		return fmt.Errorf("encodeScalar padded")
+	}
+	if v := limbsValue([]uint64{1, 2}); v.Cmp(new(big.Int).Add(pw(65), one)) != 0 {
+		return fmt.Errorf("limbsValue = %x", v)
+	}
+	for _, m := range []*big.Int{ref.SM2N, ref.SM2P} {
+		s := pw(63)
+		v := montStructured(s, m)
+		if v.Cmp(m) >= 0 || new(big.Int).Mod(new(big.Int).Mul(v, pow256), m).Cmp(s) != 0 {
+			return fmt.Errorf("montStructured is not the inverse of the Montgomery map")
+		}
 	}
 	return nil
 }
